@@ -125,7 +125,19 @@ class CallsMixin:
         if m is not None:
             self.assumed.add(key)
             return m(st, recv, argv, e)
-        raise Unsupported('call of %s @%s: no contract, not inlined, no library model' % (key, line))
+        if key in self.funcs and key in getattr(self, 'auto_inline', ()):
+            # a helper of the repository without a contract of its own: its body is verified as part of the caller
+            stack = self.__dict__.setdefault('_inl_stack', [])
+            if key in stack or len(stack) >= 4:
+                raise Unsupported('recursive or too deep inlining of %s @%s' % (key, line))
+            stack.append(key)
+            try:
+                return self.inline_call(st, key, recv, argv, e)
+            finally:
+                stack.pop()
+        ex = Unsupported('call of %s @%s: no contract, not inlined, no library model' % (key, line))
+        ex.missing_callee = key
+        raise ex
 
     def frame_inlines(self):
         fr = self.frame
